@@ -194,6 +194,15 @@ func deadLabelPrograms() []*model.Script {
 		{{Kind: model.SWhile, Cond: mflag("Q"), Body: []model.Stmt{{Kind: model.SDoWhile, Cond: mflag("R"), Body: []model.Stmt{lab("L1"), mcmd("t")}}}}},
 		{{Kind: model.SSwitch, Operand: mvar("Z"), Cases: []model.Case{{Default: true, Body: []model.Stmt{{Kind: model.SSwitch, Operand: mvar("Y"), Cases: []model.Case{{Val: 2}, {Val: 3, Body: []model.Stmt{lab("L1"), mcmd("t")}}}}}}}}},
 	}
+	// the label inside every kind of block (and every pair of nested blocks) of a statement in dead code
+	wraps := labelWrappers()
+	inner := []model.Stmt{lab("L1"), mcmd("t")}
+	for _, w := range wraps {
+		tails = append(tails, []model.Stmt{w(inner, 1)})
+		for _, w2 := range wraps {
+			tails = append(tails, []model.Stmt{w2([]model.Stmt{w(inner, 1)}, 2)})
+		}
+	}
 	for ti, tail := range tails {
 		for k := 0; k < 8; k++ {
 			var body []model.Stmt
@@ -222,6 +231,42 @@ func deadLabelPrograms() []*model.Script {
 		}
 	}
 	return out
+}
+
+// labelWrappers: one constructor per kind of block a statement can contain; each puts the given
+// statements into that block of a fresh statement (k keeps operand names distinct).
+func labelWrappers() []func(in []model.Stmt, k int) model.Stmt {
+	fl := func(p string, k int) *model.Cond { return mflag(fmt.Sprintf("%s%d", p, k)) }
+	c := func(p string, k int) model.Stmt { return mcmd(fmt.Sprintf("%s%d", p, k)) }
+	return []func(in []model.Stmt, k int) model.Stmt{
+		func(in []model.Stmt, k int) model.Stmt { // if body
+			return model.Stmt{Kind: model.SIf, Arms: []model.Arm{{Cond: fl("P", k), Body: in}}}
+		},
+		func(in []model.Stmt, k int) model.Stmt { // elif body, no else
+			return model.Stmt{Kind: model.SIf, Arms: []model.Arm{{Cond: fl("P", k), Body: []model.Stmt{c("p", k)}}, {Cond: fl("Q", k), Body: in}}}
+		},
+		func(in []model.Stmt, k int) model.Stmt { // second elif body, with else
+			return model.Stmt{Kind: model.SIf, Arms: []model.Arm{{Cond: fl("P", k), Body: []model.Stmt{c("p", k)}}, {Cond: fl("Q", k), Body: nil}, {Cond: fl("R", k), Body: in}}, HasElse: true, Else: []model.Stmt{c("q", k)}}
+		},
+		func(in []model.Stmt, k int) model.Stmt { // else body
+			return model.Stmt{Kind: model.SIf, Arms: []model.Arm{{Cond: fl("P", k), Body: []model.Stmt{c("p", k)}}}, HasElse: true, Else: in}
+		},
+		func(in []model.Stmt, k int) model.Stmt { // while body
+			return model.Stmt{Kind: model.SWhile, Cond: fl("W", k), Body: in}
+		},
+		func(in []model.Stmt, k int) model.Stmt { // do...while body
+			return model.Stmt{Kind: model.SDoWhile, Cond: fl("D", k), Body: in}
+		},
+		func(in []model.Stmt, k int) model.Stmt { // infinite while body
+			return model.Stmt{Kind: model.SWhileInf, Body: append(append([]model.Stmt{}, in...), model.Stmt{Kind: model.SIf, Arms: []model.Arm{{Cond: fl("B", k), Body: []model.Stmt{{Kind: model.SBreak}}}}})}
+		},
+		func(in []model.Stmt, k int) model.Stmt { // case body (second case, shared with a body-less one)
+			return model.Stmt{Kind: model.SSwitch, Operand: mvar(fmt.Sprintf("Y%d", k)), Cases: []model.Case{{Val: 1, Body: []model.Stmt{c("p", k)}}, {Val: 2}, {Val: 3, Body: in}}}
+		},
+		func(in []model.Stmt, k int) model.Stmt { // default body
+			return model.Stmt{Kind: model.SSwitch, Operand: mvar(fmt.Sprintf("Y%d", k)), Cases: []model.Case{{Val: 1, Body: []model.Stmt{c("p", k)}}, {Default: true, Body: in}}}
+		},
+	}
 }
 
 func cloneBody(b []model.Stmt) ([]model.Stmt, error) {
